@@ -277,6 +277,23 @@ def _quoted_name_case(vals, acc):
                  {'message': msg, 'mask': '***', 'expected': exp})
 
 
+def _repeat_case(vals, acc):
+    """The same key several times in one message, each with its own secret: all of them."""
+    from oslo_utils import strutils
+    key, ri, n, mask = vals
+    name, tmpl, family = RENDERINGS[ri]
+    sep = ' ' if family not in ('dict', 'dict3') else ' ; '
+    if family in ('dict', 'dict3'):
+        return            # a quote after a dict-style secret is F4 territory
+    msg = 'x ' + sep.join(tmpl % {'k': key, 'v': 'Zq%d9' % i} for i in range(n)) + ' y'
+    exp = 'x ' + sep.join(tmpl % {'k': key, 'v': mask} for i in range(n)) + ' y'
+    got = strutils.mask_password(msg, mask)
+    acc.nontrivial('rep' + msg)
+    if got != exp:
+        acc.fail('repeated-key:%s' % ('leak' if 'Zq' in got else 'damage'),
+                 {'message': msg, 'got': got, 'expected': exp}, {'message': msg, 'mask': mask, 'expected': exp})
+
+
 def _long_case(vals, acc):
     """Long messages: the secret sits around a power-of-two offset."""
     from oslo_utils import strutils
@@ -446,6 +463,7 @@ def run(ctx):
     E.run(rep, 'urlish-secrets-dashdash', [KEYS if full else rep_keys + KEYS[::7], ['lower'], [9],
                                            [x for x in URLISH_SECRETS if '=' not in x] + ['Xy&z', 'a?b', 'a&b'],
                                            URLISH_CONTEXTS, ['***'], [None]], _case)
+    E.run(rep, 'repeated-key', [KEYS, rlist, [2, 3, 4, 7], ['***']], _repeat_case)
     # product 3d: long messages, the secret around 2^12, 2^13, 2^16 (and 2^20)
     deltas = list(range(-24, 25))
     E.run(rep, 'long-messages', [[0, 2, 3, 5, 9, 12], [4096, 8192, 65536], deltas,
